@@ -230,7 +230,8 @@ def check_case(case):
         require(same_bits(res.frequency, fcs), f"{what}: result.frequency differs from the requested centre frequencies")
         got = _rows(res)
         for g in got:
-            require(np.all(np.isfinite(g)) and np.all(g >= 0), f"{what}: non-finite or negative amplitudes")
+            # (+inf is legitimate: a vertical spectrum that is exactly zero at a bin - a short periodic test signal - gives x/0)
+            require(not np.any(np.isnan(g)) and np.all(g >= 0), f"{what}: NaN or negative amplitudes")
         if m == "diffuse_field":
             # one curve from all kept windows: equals processing the kept windows alone
             ok = False
